@@ -69,7 +69,13 @@ pub fn check_bytes(b: &[u8]) -> (Vec<Finding>, bool) {
     match r {
         Err(pn) => (vec![finding(format!("C11|{}", pn.sig()), format!("{:?} on {}", pn, crate::engine::truncate(&hex(b), 300)), mk())], true),
         Ok(None) => (vec![], false),
-        Ok(Some(bad)) => (bad.into_iter().map(|(t, d)| finding(format!("C11|{}", t), format!("{}; input {}", d, crate::engine::truncate(&hex(b), 300)), mk())).collect(), true),
+        Ok(Some(bad)) => {
+            // the input is quoted once (it can be megabytes long), and a handful of findings per
+            // message is evidence enough
+            let quoted = hex(&b[..b.len().min(150)]);
+            let case = if b.len() > 20_000 { json!({"kind": "large", "len": b.len(), "header": hex(&b[..12])}) } else { mk() };
+            (bad.into_iter().take(24).map(|(t, d)| finding(format!("C11|{}", t), format!("{}; input ({} bytes) {}", crate::engine::truncate(&d, 1500), b.len(), quoted), case.clone())).collect(), true)
+        }
     }
 }
 
@@ -356,6 +362,29 @@ pub fn run(ctx: &Ctx) {
         }
     });
     ctx.space("reference encodings (plain and fully compressed, OPT at every additional index) of the C02 packet space plus empty-RDATA x class packets", n3.load(std::sync::atomic::Ordering::Relaxed), "complete");
+    {
+        // messages beyond 64 KiB and sections filled to the last value their count can hold
+        let large = gen::large_messages();
+        par_shards(ctx, &large, |b, t: &mut Tally| {
+            t.evals += 1;
+            let (mut f, acc) = check_bytes(b);
+            if !acc {
+                f.push(finding("C11|large|rejected", format!("a well-formed message of {} bytes (counts {:?}) is rejected", b.len(), &b[4..12]), json!({"kind": "large", "len": b.len(), "header": hex(&b[..12])})));
+            }
+            if acc {
+                t.nontrivial += 1;
+            }
+            t.outcome(if !acc { "rejected" } else if f.is_empty() { "stable" } else { "altered" });
+            for x in f.iter_mut() {
+                // the artefact names the message instead of carrying megabytes of hex
+                x.case = json!({"kind": "large", "len": b.len(), "header": hex(&b[..12])});
+            }
+            if !f.is_empty() {
+                ctx.violations(f);
+            }
+        });
+        ctx.space("messages beyond 64 KiB: records with RDATA of 32766..65535 bytes followed by compressed names, sections that together hold 65536..196605 records, a full additional section (65535 entries) with the OPT record first / in the middle / last", large.len() as u64, "complete");
+    }
     // (iv) malformed-input generators
     super::c01::enumerate_inputs(
         ctx,
@@ -375,5 +404,20 @@ pub fn run(ctx: &Ctx) {
 }
 
 pub fn replay(case: &Value) -> Vec<Finding> {
+    if case["kind"].as_str() == Some("large") {
+        let len = case["len"].as_u64().unwrap_or(0) as usize;
+        let head = case["header"].as_str().unwrap_or("").to_string();
+        let mut out = Vec::new();
+        for b in gen::large_messages() {
+            if b.len() == len && hex(&b[..12]) == head {
+                let (f, acc) = check_bytes(&b);
+                out.extend(f);
+                if !acc {
+                    out.push(finding("C11|large|rejected", format!("a well-formed message of {} bytes is rejected", b.len()), case.clone()));
+                }
+            }
+        }
+        return out;
+    }
     check_bytes(&unhex(case["msg"].as_str().unwrap_or(""))).0
 }
